@@ -42,7 +42,7 @@ pub fn run(ctx: &mut Ctx) {
     for (n, ok) in r2::selftest() {
         ctx.selftest(&n, ok);
     }
-    ctx.require(&["annex_kat", "fixed_nonce_exact", "free_nonce", "ref_made_accepted", "openssl_made_accepted", "id_default", "id_explicit", "id_empty", "id_8191", "id_too_long", "id_non_ascii_utf8", "msg_empty", "edge_key", "random_key", "e_ge_n", "key_from_constructor", "key_from_gen_keypair", "key_with_jacobian_public_point", "retry:r=0", "retry:r+k=n", "retry:s=0", "digest_regular", "id_len_threshold", "msg_beyond_2^16_bits", "verifier_key_from_compressed_bytes"]);
+    ctx.require(&["annex_kat", "fixed_nonce_exact", "free_nonce", "ref_made_accepted", "openssl_made_accepted", "id_default", "id_explicit", "id_empty", "id_8191", "id_too_long", "id_non_ascii_utf8", "msg_empty", "edge_key", "random_key", "e_ge_n", "key_from_constructor", "key_from_gen_keypair", "key_with_jacobian_public_point", "retry:r=0", "retry:r+k=n", "retry:s=0", "digest_regular", "id_len_threshold", "msg_beyond_2^16_bits", "verifier_key_from_compressed_bytes", "id_length_sweep"]);
     let c = r2::curve();
 
     // --- Annex example through the library with the nonce injected
@@ -190,6 +190,25 @@ pub fn run(ctx: &mut Ctx) {
         }
     }
 
+    // --- signer ID lengths 0..=130: the hash input of ZA (194 + |ID| bytes) takes every residue modulo the SM3 block size
+    {
+        let mut pi = ctx.prng("id_sweep");
+        for len in 0..=130usize {
+            let sub = pi.next();
+            if !ctx.mine(len as u64) {
+                continue;
+            }
+            let mut p = Prng::new(sub, "ids");
+            let d = rand_scalar(&mut p, &(&c.n - 1u32));
+            let k = rand_scalar(&mut p, &c.n);
+            let id = ascii_id(&mut p, len);
+            let msg = p.bytes(10);
+            ctx.class("id_length_sweep");
+            fixed_case(ctx, &d, Some(leak(id.clone())), &id, &msg, &k, "id_length_sweep");
+            ref_made_case(ctx, &d, Some(leak(id.clone())), &id, &msg, &k, 0);
+        }
+        ctx.exhaustive("signer ID lengths 0..=130", true);
+    }
     // --- thresholds: ID lengths around 2^5, 2^8, 2^12 bytes (ENTL bytes) and messages beyond 2^16 bits / 2^16 bytes
     {
         let mut pt = ctx.prng("thresholds");
